@@ -83,7 +83,7 @@ pub struct Program {
     pub exit: Option<usize>,
 }
 
-fn hw(r: Register) -> u8 {
+pub fn hw(r: Register) -> u8 {
     r.0 as u8
 }
 
@@ -419,10 +419,30 @@ pub fn run(prog: &Program, args: &[i64], cfg: &EmuConfig) -> EmuResult {
             m.set(r, *a as u64, true);
         }
     }
+    if let Some(h) = &cfg.init_heap {
+        for (i, w) in h.iter().enumerate() {
+            if i < m.heap.words.len() {
+                m.heap.words[i] = *w;
+            }
+        }
+    }
+    let stop_idx = cfg.stop_label.as_ref().and_then(|l| prog.labels.get(l).copied());
+    let mut snapshot = None;
     let mut monitor = HeapMonitor::default();
     let mut pc = prog.entry;
     let mut violation = None;
     let end: Result<i64, Undefined> = loop {
+        if stop_idx == Some(pc) {
+            snapshot = Some(Snapshot2 {
+                regs: (0..32).map(|r| (m.regs[r], m.rdef[r])).collect(),
+                sp: 0,
+                stack_base: 0,
+                stack_words: Vec::new(),
+                stack_def: Vec::new(),
+                heap_words: m.heap.words.clone(),
+            });
+            break Ok(0);
+        }
         if prog.exit == Some(pc) {
             match m.exit::<()>() {
                 Err(Stop::Done(v)) => break Ok(v),
@@ -549,7 +569,7 @@ pub fn run(prog: &Program, args: &[i64], cfg: &EmuConfig) -> EmuResult {
     };
     let mut stats = m.stats;
     stats.max_frontier_blocks = stats.max_frontier_blocks.max(monitor.max_frontier);
-    EmuResult { outcome: Outcome { prints: Vec::new(), end }, violation, stats }
+    EmuResult { outcome: Outcome { prints: Vec::new(), end }, violation, stats, snapshot }
 }
 
 #[cfg(test)]
@@ -557,7 +577,7 @@ mod tests {
     use super::*;
 
     fn cfg() -> EmuConfig {
-        EmuConfig { heap_bytes: 1 << 12, max_instructions: 10_000, heap_check_every: 1, footprint_check: true }
+        EmuConfig { heap_bytes: 1 << 12, max_instructions: 10_000, heap_check_every: 1, footprint_check: true, ..Default::default() }
     }
 
     /// body of `main_` followed by the epilogue the backend prints
